@@ -1062,6 +1062,8 @@ class Interp:
             if a == 'close': return (lambda *a_, **k_: None)
         if isinstance(base, list) and a in ('append',):
             return ('listmethod', base, a)
+        if isinstance(base, set) and a in ('add', 'discard', 'remove', 'clear', 'update', 'copy', 'union', 'intersection', 'difference', 'issubset', 'issuperset', 'pop'):
+            return getattr(base, a)          # Python's own set on concrete (hashable) elements
         if isinstance(base, Arr) and a == 'shape':
             if base.shape is None:
                 raise AnalysisError(f'{fr.mod.where(e)}: shape of an array of unknown extent')
@@ -1859,6 +1861,12 @@ class Interp:
             return tuple(args[0]) if nm == 'tuple' else list(args[0])
         if nm == 'dict':
             return dict(kwargs) if not args else dict(args[0])
+        if nm in ('set', 'frozenset'):
+            if not args: return set()
+            try:
+                return set(self._iterable(seq(args[0])))
+            except TypeError:
+                raise AnalysisError(f'{nm}() of unhashable / symbolic elements')
         if nm in ('zeros_like', 'ones_like') and args and isinstance(args[0], Vec):
             return Vec([X.ZERO if nm == 'zeros_like' else X.ONE for _ in args[0]])
         if nm == 'linspace':
@@ -1918,6 +1926,14 @@ class Interp:
             return X.power(to_node(args[0]), to_node(args[1]))
         if nm in ('mod', 'remainder') and len(args) == 2 and all(is_num(a_) for a_ in args):
             return self.binop(ast.Mod(), args[0], args[1], e, fr)
+        if nm in ('max', 'min', 'amax', 'amin', 'nanmax', 'nanmin') and len(args) == 1 and isinstance(args[0], Vec) and len(args[0]) >= 1 and all(is_num(v_) for v_ in args[0]):
+            # a reduction over a whole (small) array: the largest / smallest element
+            acc = args[0][0]
+            for v_ in list(args[0])[1:]:
+                acc = self.builtin('max' if 'max' in nm else 'min', [acc, v_], {}, e, fr)
+            return acc
+        if nm in ('max', 'min', 'amax', 'amin') and len(args) == 1 and is_num(args[0]):
+            return args[0]                  # np.max of a number (a 0-d array) is that number
         if nm in ('max', 'min', 'fmax', 'fmin', 'maximum', 'minimum') and len(args) >= 2 and all(is_num(a) for a in args):
             cs = [concrete(a) for a in args]
             if all(c is not None for c in cs):
